@@ -746,6 +746,9 @@ def p_mp_createClass(p):
                                     obj.qualifiers['embeddedinstance']
                             except KeyError:
                                 continue
+                            if embedded_inst.value is None:
+                                # EmbeddedInstance without a class name
+                                continue
                             if embedded_inst.value not in dep_classnames and \
                                     embedded_inst.value.lower() != ccname:
                                 dep_classnames.append(embedded_inst.value)
